@@ -271,7 +271,8 @@ func (r *storeRig) checkVisit(i int, o SOp) {
 			c.Failf(tag+"/VisitMailboxes-coverage", "op %d visit: mailbox %q visited %d times, want 1 (visited: %v)", i, name, seen[name], seen)
 		}
 	}
-	for name, n := range seen {
+	for _, name := range sortedKeysI(seen) {
+		n := seen[name]
 		if len(r.model.List(name)) == 0 {
 			c.Failf(tag+"/VisitMailboxes-phantom", "op %d visit: mailbox %q visited (%d) but the model has no messages there", i, name, n)
 		}
